@@ -321,3 +321,15 @@ func Seed32(label string) []byte {
 	h := sha512.Sum512([]byte("seed:" + label))
 	return h[:32]
 }
+
+// Ed25519Neutral is the encoding of the neutral element of the Ed25519 group. As a public key it accepts the
+// signature (R = neutral element, S = 0) for EVERY message: an adversary that may choose "its" long-term key can pass
+// any signature check whose message it does not know.
+var Ed25519Neutral = append([]byte{1}, make([]byte, 31)...)
+
+// UniversalM5Sub is the key-exchange sub-TLV of an adversary that names itself `name`, presents the neutral element
+// as its long-term key and the signature that this key accepts for every message.
+func UniversalM5Sub(name string) []byte {
+	sig := append(append([]byte{}, Ed25519Neutral...), make([]byte, 32)...)
+	return TLVEncode(T(TagIdentifier, []byte(name)), T(TagPublicKey, Ed25519Neutral), T(TagSignature, sig))
+}
